@@ -565,3 +565,6 @@ def check_one(case):
         viol.append((f"body-tree:{what}", d))
     nt = any(r.get("type", "").startswith("begin") or r.get("type") in ("calculate", "hidden", "audit") for r in rows)
     return {"outcome": "ok", "nt": nt and not viol, "viol": viol, "tr": ntr}
+
+# as-built additions of the seventh wave (reported with the bound in the evidence)
+BOUND = {k: v + "; seventh wave: " + '18 legacy spellings of the question types in the row alphabet' for k, v in BOUND.items()}
